@@ -744,3 +744,34 @@ Definition run_read_parquet_dask (c : list col * option string * nat * list dop)
     | Some d => Some (Some (dobserve d), run_dops d dops)
     end
   else None.
+
+(* ------------------------------------------------------------------ *)
+(* the PUBLIC part of the observations: the private attribute _geometry is left out
+   (is GeoDataFrame, .geometry.name or None if it raises, [(label, has a GeometryDtype)]);
+   this is what the verdict of the correspondence run is based on *)
+Definition pobs := (bool * option string * list (string * bool))%type.
+
+Definition pub_obs (o : obs) : pobs :=
+  let '(g, _, nm, cs) := o in (g, nm, cs).
+
+Definition pdobs := (pobs * list (option pobs) * option pobs)%type.
+
+Definition pub_dobs (d : dobs) : pdobs :=
+  let '(m, ps, c) := d in (pub_obs m, map (option_map pub_obs) ps, option_map pub_obs c).
+
+Definition run_pandas_pub (c : list col * list pop) : option (list (option pobs)) :=
+  option_map (map (option_map pub_obs)) (run_pandas c).
+
+Definition pub_dres (r : option dobs * list (option dobs)) : option pdobs * list (option pdobs) :=
+  (option_map pub_dobs (fst r), map (option_map pub_dobs) (snd r)).
+
+Definition run_dask_pub (c : list col * list pop * nat * list dop) :=
+  option_map pub_dres (run_dask c).
+
+Definition run_read_parquet_dask_pub (c : list col * option string * nat * list dop) :=
+  option_map pub_dres (run_read_parquet_dask c).
+
+Definition expanddim_obs (cs : list col) : option obs :=
+  match expanddim_from_mgr cs with Some f => Some (observe f) | None => None end.
+
+Definition expanddim_obs_pub (cs : list col) : option pobs := option_map pub_obs (expanddim_obs cs).
